@@ -327,7 +327,7 @@ pub fn run(args: &[String]) {
         ctx.finish(Map::new(), vec![]);
     }
     let tier = ctx.tier();
-    let all_lists = lists(plugs.len(), tier.pick(3, 4), 2);
+    let all_lists = lists(plugs.len(), tier.pick(4, 4), 2);
     let cases: Vec<(usize, Vec<usize>)> = (0..sockets.len()).flat_map(|s| all_lists.iter().map(move |l| (s, l.clone()))).collect();
     let outs: Vec<(usize, Vec<usize>, Vec<Viol>, &'static str, bool)> = cases
         .par_iter()
@@ -362,7 +362,7 @@ pub fn run(args: &[String]) {
     cov.insert("exhaustive".into(), json!(true));
     cov.insert("sockets".into(), json!(sockets.len()));
     cov.insert("plug_universe".into(), json!(plugs.len()));
-    cov.insert("max_list_length".into(), json!(tier.pick(3, 4)));
+    cov.insert("max_list_length".into(), json!(tier.pick(4, 4)));
     cov.insert("outcomes".into(), json!(classes));
     cov.insert("unspecified_cases".into(), json!(unspecified));
     cov.insert(
